@@ -361,6 +361,11 @@ def invariants(model) -> set[str]:
         for v in list(g.outputs):
             if id(v) not in defined:
                 bad.add("I1:dangling-output")
+            # a graph output that a node produces must be produced by a node OF THIS graph (a pass that inserts a
+            # node for an output has to put it into the graph that owns the output)
+            pr = v.producer()
+            if pr is not None and all(pr is not n for n in nodes):
+                bad.add(f"I4:output-produced-in-another-graph@{label}")
         # uses point back
         seen_vals = list(g.inputs) + [o for n in nodes for o in n.outputs]
         if hasattr(g, "initializers"):
@@ -671,7 +676,8 @@ def oracle_run(spec: dict, pspec, fault: str | None = None, max_rounds: int | No
 OPS1 = ["Relu", "Neg", "Identity", "Abs"]
 
 
-def gen_graph(rng, depth: int, prefix: str, outer: list[str], rich: bool, opset: int = 20, top: bool = True) -> dict:
+def gen_graph(rng, depth: int, prefix: str, outer: list[str], rich: bool, opset: int = 20, top: bool = True,
+              nouts: int = 1) -> dict:
     """A structured, mostly valid graph spec.  `outer`: handles visible from enclosing graphs."""
     g = {"name": prefix + "g", "inputs": [], "inits": [], "nodes": [], "outputs": []}
     if top:
@@ -741,9 +747,12 @@ def gen_graph(rng, depth: int, prefix: str, outer: list[str], rich: bool, opset:
                     avail.append("cond")
             if "cond" in avail:
                 ns["ins"] = ["cond"]
+                nb = 2 if rng.random() < 0.3 else 1          # branches with two outputs (maybe the same value twice)
+                if nb == 2:
+                    ns["outs"] = [o, o + "b"]
                 ns["attrs"] = {
-                    "then_branch": {"graph": gen_graph(rng, depth - 1, prefix + f"t{i}", avail, rich, top=False)},
-                    "else_branch": {"graph": gen_graph(rng, depth - 1, prefix + f"e{i}", avail, rich, top=False)}}
+                    "then_branch": {"graph": gen_graph(rng, depth - 1, prefix + f"t{i}", avail, rich, top=False, nouts=nb)},
+                    "else_branch": {"graph": gen_graph(rng, depth - 1, prefix + f"e{i}", avail, rich, top=False, nouts=nb)}}
             else:
                 ns["op"] = "Relu"
                 ns["ins"] = [rng.choice(avail)]
@@ -782,6 +791,8 @@ def gen_graph(rng, depth: int, prefix: str, outer: list[str], rich: bool, opset:
             g["outputs"].append(rng.choice(cands))
     if not top:
         g["outputs"] = g["outputs"][:1]
+        if nouts == 2:
+            g["outputs"].append(g["outputs"][0] if rng.random() < 0.6 else rng.choice(cands))
     # disorder: swap two nodes in some graphs
     if len(g["nodes"]) >= 2 and rng.random() < 0.3:
         i, j = rng.sample(range(len(g["nodes"])), 2)
